@@ -5,6 +5,7 @@ package main
 // re-encoding to the canonical bytes, unknown-type pass-through, token and nonce codecs.
 
 import (
+	"bytes"
 	"encoding/hex"
 	"fmt"
 	"math/big"
@@ -576,6 +577,115 @@ func famWire(r *Rng, o *Out, tier string) {
 			out, _ := mm.Encode()
 			return "ok " + hexb(out)
 		}))
+	}
+	// accepted non-canonical TOKENS, judged without the model (struct fields named twice are outside its wire
+	// domain): a token written as a map, with one field given twice (another value first or last). Whatever the
+	// decoder makes of it, the decoded token is a fixed point of encode/decode - same nonce (key-id, random part,
+	// version, proof flag), location, caveats, tail - and verification of the accepted bytes and of their canonical
+	// re-encoding agree: both refused, or both accepted with the same caveats.
+	for i := 0; i < n/10; i++ {
+		key := r.Bytes(32)
+		var m *macaroon.Macaroon
+		proofTok := r.Chance(1, 3)
+		if proofTok {
+			c3, err := macaroon.NewCaveat3P(key, "https://wire.example")
+			if err != nil {
+				continue
+			}
+			rn, ok := ticketKey(key, c3.Ticket)
+			if !ok {
+				continue
+			}
+			_, dm, err := macaroon.DischargeTicket(key, "https://wire.example", c3.Ticket)
+			if err != nil {
+				continue
+			}
+			m, key = dm, rn
+		} else {
+			m, _ = macaroon.New(r.Bytes(pick(r, []int{0, 1, 8})), "https://wire.example", key)
+		}
+		for k, kk := 0, r.Intn(3); k < kk; k++ {
+			m.Add(r.plainCav(1))
+		}
+		b, err := m.Encode()
+		if err != nil {
+			continue
+		}
+		tree, rest, perr := mpParse(b)
+		if perr != nil || len(rest) != 0 || tree.Kind != mpArr || len(tree.Kids) != 4 {
+			continue
+		}
+		nt, lt, ct, tt := tree.Kids[0], tree.Kids[1], tree.Kids[2], tree.Kids[3]
+		if nt.Kind != mpArr || len(nt.Kids) < 2 {
+			continue
+		}
+		kidN, rndN := nt.Kids[0], nt.Kids[1]
+		type alt struct {
+			field string
+			node  *mpNode
+		}
+		alts := []alt{
+			{"Nonce", &mpNode{Kind: mpArr, Kids: []*mpNode{kidN, rndN, {Kind: mpBool, B: true}}}},
+			{"Nonce", &mpNode{Kind: mpArr, Kids: []*mpNode{kidN, rndN, {Kind: mpBool, B: false}}}},
+			{"Nonce", &mpNode{Kind: mpArr, Kids: []*mpNode{kidN, rndN}}},
+			{"Location", mpStrNode("https://elsewhere.example")},
+			{"Tail", &mpNode{Kind: mpBin, S: r.Bytes(32)}},
+			{"Tail", &mpNode{Kind: mpBin, S: finalizeSig(m.Tail)}},
+			{"UnsafeCaveats", &mpNode{Kind: mpArr}},
+		}
+		a := pick(r, alts)
+		first := r.Bool()
+		// (also the token in the old two-field nonce format, for the proof-flag alternatives)
+		own := map[string]*mpNode{"Nonce": nt, "Location": lt, "UnsafeCaveats": ct, "Tail": tt}
+		if a.field == "Nonce" && r.Bool() {
+			own["Nonce"] = &mpNode{Kind: mpArr, Kids: []*mpNode{kidN, rndN}}
+		}
+		var kids []*mpNode
+		for _, f := range []string{"Nonce", "Location", "UnsafeCaveats", "Tail"} {
+			if f == a.field && first {
+				kids = append(kids, mpStrNode(f), a.node)
+			}
+			kids = append(kids, mpStrNode(f), own[f])
+			if f == a.field && !first {
+				kids = append(kids, mpStrNode(f), a.node)
+			}
+		}
+		x := mpEnc(&mpNode{Kind: mpMap, Kids: kids})
+		res := guard(func() string {
+			m1, err := macaroon.Decode(x)
+			if err != nil {
+				return "canon" // refused outright
+			}
+			e1, err := m1.Encode()
+			if err != nil {
+				return "canon"
+			}
+			m2, err := macaroon.Decode(e1)
+			if err != nil {
+				return "accepted-token-does-not-re-decode"
+			}
+			e2, _ := m2.Encode()
+			if !bytes.Equal(e1, e2) || sxMac(m1) != sxMac(m2) {
+				return fmt.Sprintf("accepted-token-is-no-fixed-point(field=%s,first=%v):%s:%s", a.field, first, sxNonce(m1.Nonce), sxNonce(m2.Nonce))
+			}
+			v := func(tok []byte) string {
+				mm, err := macaroon.Decode(tok)
+				if err != nil {
+					return "reject"
+				}
+				cs, err := mm.Verify(key, nil, nil)
+				if err != nil {
+					return "reject"
+				}
+				return "ok " + sxCavs(cs.Caveats)
+			}
+			if vx, ve := v(x), v(e1); vx != ve {
+				return fmt.Sprintf("verdict-differs(field=%s,first=%v): accepted bytes %s, canonical re-encoding %s", a.field, first, vx, ve)
+			}
+			return "canon"
+		})
+		o.count("dupfield." + a.field)
+		o.emit("(const canon)", res)
 	}
 	_ = strings.Join
 }
